@@ -40,7 +40,7 @@ type Case struct {
 
 // Classes lists every damage class this program can apply (printed by kind "classes").
 var Classes = []string{
-	"prefix-oversized", "datasize-oversized", "datasize-negative", "datasize-missing",
+	"prefix-oversized", "prefix-topbit", "prefix-allones", "datasize-oversized", "datasize-negative", "datasize-missing",
 	"rawsize-too-small", "rawsize-too-large", "rawsize-negative", "rawsize-zero", "rawsize-group-boundary",
 	"zlib-corrupt", "zlib-truncated", "zlib-badheader", "zlib-bad-checksum", "encoding-lzma", "encoding-none",
 	"blocktype-unknown", "blocktype-header-again",
@@ -83,6 +83,12 @@ func damage(b *pbfw.Block, class string) bool {
 	switch class {
 	case "prefix-oversized":
 		v := uint32(70000)
+		b.Damage.PrefixOverride = &v
+	case "prefix-topbit":
+		v := uint32(0x80000010)
+		b.Damage.PrefixOverride = &v
+	case "prefix-allones":
+		v := uint32(0xffffffff)
 		b.Damage.PrefixOverride = &v
 	case "datasize-oversized":
 		b.Damage.DataSizeOverride = pbfw.I32(40 << 20)
@@ -257,6 +263,14 @@ func runCase(c Case, raw json.RawMessage) M {
 		s := osmpbf.New(context.Background(), bytes.NewReader(data), c.N)
 		defer s.Close()
 		H := []M{}
+		if c.Variant%2 == 1 { // asking for the header first must not change what the scan reports
+			_, herr := s.Header()
+			hc := errClass(herr)
+			if herr == io.EOF {
+				hc = "eof"
+			}
+			H = append(H, M{"op": "hdr", "class": hc})
+		}
 		for {
 			H = append(H, M{"op": "call"})
 			if !s.Scan() {
